@@ -470,9 +470,9 @@ func (r *Runtime) typedArrayProto_copyWithin(call FunctionCall) Value {
 		data := ta.viewedArrayBuf.data
 		offset := ta.offset
 		elemSize := ta.elemSize
-		if final > from {
+		if count := min(final-from, toIntStrict(l)-to); count > 0 {
 			ta.viewedArrayBuf.ensureNotDetached(true)
-			copy(data[(offset+to)*elemSize:], data[(offset+from)*elemSize:(offset+final)*elemSize])
+			copy(data[(offset+to)*elemSize:(offset+to+count)*elemSize], data[(offset+from)*elemSize:(offset+from+count)*elemSize])
 		}
 		return call.This
 	}
